@@ -123,16 +123,17 @@ func TestVerifReplay(t *testing.T) {
 		crash = panicClass(v.Detail)
 	}
 	sh := fmt.Sprintf("#!/bin/sh\n# native replay of a solver counterexample against the real build; exit 0 = reproduced\n"+
-		"cd %s && out=$(GOFLAGS=-mod=mod GOPROXY=off GOSUMDB=off GOTOOLCHAIN=local VERIF_ASSIGNMENT=%s timeout 600 go test -vet=off -count=1 -overlay %s -run TestVerifReplay -v %s 2>&1)\n"+
+		"mkdir -p %s/tmp; cd %s && out=$(VERIF_TMP=%s/tmp GOFLAGS=-mod=mod GOPROXY=off GOSUMDB=off GOTOOLCHAIN=local VERIF_ASSIGNMENT=%s timeout 600 go test -vet=off -count=1 -overlay %s -run TestVerifReplay -v %s 2>&1)\n"+
 		"echo \"$out\"\n"+
 		"echo \"$out\" | grep -q 'REPRODUCED: VERIF-ASSERT %s' && exit 0\n"+
 		"# an unrecovered panic in a goroutine crashes the test binary: that is the reproduction of a 'panic' violation\n"+
 		"echo \"$out\" | grep -q '^panic: ' && echo \"$out\" | grep -q '%s' && { echo 'REPRODUCED (process crashed)'; exit 0; }\n"+
-		"exit 1\n", modDir, cePath, ovPath, pkgPat, v.Label, crash)
+		"exit 1\n", dir, modDir, dir, cePath, ovPath, pkgPat, v.Label, crash)
 	os.WriteFile(filepath.Join(dir, "replay.sh"), []byte(sh), 0755)
 	cmd := exec.Command("timeout", "600", "go", "test", "-vet=off", "-count=1", "-overlay", ovPath, "-run", "TestVerifReplay", "-v", pkgPat)
 	cmd.Dir = modDir
-	cmd.Env = append(os.Environ(), "GOFLAGS=-mod=mod", "GOPROXY=off", "GOSUMDB=off", "GOTOOLCHAIN=local", "VERIF_ASSIGNMENT="+cePath)
+	os.MkdirAll(filepath.Join(dir, "tmp"), 0755)
+	cmd.Env = append(os.Environ(), "GOFLAGS=-mod=mod", "GOPROXY=off", "GOSUMDB=off", "GOTOOLCHAIN=local", "VERIF_ASSIGNMENT="+cePath, "VERIF_TMP="+filepath.Join(dir, "tmp"))
 	out, err := cmd.CombinedOutput()
 	os.WriteFile(filepath.Join(dir, "replay.log"), out, 0644)
 	ok := err == nil && strings.Contains(string(out), "REPRODUCED: VERIF-ASSERT "+v.Label)
@@ -215,7 +216,8 @@ func TestVerifWitness(t *testing.T) {
 	os.WriteFile(ovPath, ob, 0644)
 	cmd := exec.Command("timeout", "600", "go", "test", "-vet=off", "-count=1", "-overlay", ovPath, "-run", "TestVerifWitness", "-v", pkgPat)
 	cmd.Dir = modDir
-	cmd.Env = append(os.Environ(), "GOFLAGS=-mod=mod", "GOPROXY=off", "GOSUMDB=off", "GOTOOLCHAIN=local", "VERIF_ASSIGNMENT="+cePath)
+	os.MkdirAll(filepath.Join(dir, "tmp"), 0755)
+	cmd.Env = append(os.Environ(), "GOFLAGS=-mod=mod", "GOPROXY=off", "GOSUMDB=off", "GOTOOLCHAIN=local", "VERIF_ASSIGNMENT="+cePath, "VERIF_TMP="+filepath.Join(dir, "tmp"))
 	out, err := cmd.CombinedOutput()
 	os.WriteFile(filepath.Join(dir, "witness.log"), out, 0644)
 	ok := err == nil && (strings.Contains(string(out), "WITNESS-OK") || strings.Contains(string(out), "WITNESS-SKIPPED"))
